@@ -156,7 +156,7 @@ static int post_fork_script(struct scen *s, const char *role)
 		PH("ht-inherited-settle");
 		if (ht_wait_settled(t, role, what, nap))
 			return -1;
-		if (t->state_at_fork == HT_QUEUED && t->target_at_fork > t->size_at_fork && ht_size(t) <= t->size_at_fork) {
+		if (t->state_at_fork == HT_QUEUED && !t->stale_flag && t->target_at_fork > t->size_at_fork && ht_size(t) <= t->size_at_fork) {
 			char key[96];
 			snprintf(key, sizeof(key), "c16:%s:ht-queued-resize-lost", role);
 			R_viol(key, "%s %s %s: resize queued at fork (size %lu target %lu) settled at size %lu", s->cfg, role, what,
